@@ -71,7 +71,7 @@ func (sim) Explain(prop string, st map[string]int64) string {
 			"probe.rejection-of-recorded-tx", "probe.resend-with-unmined", "probe.resend-chain", "fault.backend-answer.transport", "fault.backend-answer.reject-fee",
 			"fault.backend-answer.reject-generic", "fault.backend-answer.reject-conflict", "fault.backend-answer.notify-received-fails", "fault.backend-answer.notify-received-2nd-fails", "probe.resend-rejected", "probe.rejection-with-recorded-child"}
 	case "C15":
-		probes = []string{"probe.reorg-back-to-known-blocks", "probe.reorg-depth>1", "probe.reorg-with-wallet-tx", "probe.restart-tip-not-on-chain", "probe.stale-disconnect", "probe.reorg-equal-height", "probe.sync-after-backend-failure", "probe.node-moved-while-stopped"}
+		probes = []string{"probe.reorg-back-to-known-blocks", "probe.chain-shortened", "probe.reorg-depth>1", "probe.reorg-with-wallet-tx", "probe.restart-tip-not-on-chain", "probe.stale-disconnect", "probe.reorg-equal-height", "probe.sync-after-backend-failure", "probe.node-moved-while-stopped"}
 	}
 	s := "probes: "
 	for _, k := range probes {
@@ -166,7 +166,22 @@ func genC15(r *core.Rand, p *core.Plan) {
 	for i := 0; i < n; i++ {
 		switch r.Weighted([]int{20, 25, 18, 12, 14, 5, 4, 4, 6, 4, 3, 8}) {
 		case 11:
-			p.Ops = append(p.Ops, core.Op{K: "switchback", A: []int64{int64(r.Intn(4)), int64(r.Uint64() >> 1)}})
+			if r.Chance(1, 2) {
+				// invalidateblock ... reconsiderblock: the chain gets shorter,
+				// then returns to the very same blocks
+				p.Ops = append(p.Ops, core.Op{K: "invalidate", A: []int64{int64(r.Range(1, 4))}})
+				if r.Chance(2, 3) {
+					p.Ops = append(p.Ops, core.Op{K: "sync"})
+				}
+				if r.Chance(1, 4) {
+					p.Ops = append(p.Ops, core.Op{K: "mine", A: []int64{1, 100, -1, 600, int64(r.Uint64() >> 1)}})
+					p.Ops = append(p.Ops, core.Op{K: "sync"})
+				}
+				p.Ops = append(p.Ops, core.Op{K: "switchback", A: []int64{0, int64(r.Uint64() >> 1), 0}})
+				p.Ops = append(p.Ops, core.Op{K: "sync"})
+			} else {
+				p.Ops = append(p.Ops, core.Op{K: "switchback", A: []int64{int64(r.Intn(4)), int64(r.Uint64() >> 1)}})
+			}
 		case 0:
 			p.Ops = append(p.Ops, core.Op{K: "fund", A: []int64{int64(r.Intn(6)), int64(r.Range(1, 50)) * 1e6}})
 		case 1:
@@ -525,6 +540,27 @@ func (rs *runState) exec(task, step int, op core.Op) {
 			env.Count("probe.node-moved-while-stopped")
 		}
 		env.Logf("%d reorg depth=%d disc=%d conn=%d tip=%d", step, depth, len(disc), len(conn), x.node.Tip().Height)
+	case "invalidate":
+		// the backend's best chain becomes shorter (invalidateblock): blocks
+		// are disconnected without a replacement branch
+		d := int(op.Arg(0))
+		if d < 1 {
+			d = 1
+		}
+		if d > 6 {
+			d = 6
+		}
+		disc := x.node.Invalidate(d)
+		if len(disc) == 0 {
+			return
+		}
+		env.Count("op.invalidate")
+		env.Count("probe.chain-shortened")
+		env.Eff()
+		if !x.running && x.w != nil {
+			env.Count("probe.node-moved-while-stopped")
+		}
+		env.Logf("%d invalidate %d tip=%d", step, len(disc), x.node.Tip().Height)
 	case "switchback":
 		// the best chain returns to blocks it had before (same hashes)
 		d, c := x.node.SwitchBack(int(op.Arg(0)))
@@ -534,7 +570,7 @@ func (rs *runState) exec(task, step int, op core.Op) {
 		// a bitcoind-style client ignores a branch lower than its best block:
 		// make the restored branch at least as high as what it replaced
 		r := core.NewRand(uint64(op.Arg(1)) + 41)
-		for c < d {
+		for c < d && op.Arg(2) == 0 {
 			x.node.Mine(simchain.MineOpts{Txs: x.pickMempool(r, 100), CoinbaseValue: 50e8, Dt: 10 * time.Minute})
 			c++
 		}
